@@ -1,7 +1,7 @@
 /-
   Model of the DMR that pydap's server writes (responses/dmr.py `dmr()` dispatcher) for a dataset of
   groups and numeric variables, as the element tree of that text (ElementTree is trusted for text → tree).
-  Since fix abef005 the attributes of a variable are written with DAP4 type names (`_attribute_type`), one
+  Since fix 02bf132 the attributes of a variable are written with DAP4 type names (`_attribute_type`), one
   `<Value>` per value, and its Maps as `<Map name=…/>` children: both are modelled for variables.  Attributes of
   groups and of the dataset are written by the same helper but are not part of this model.
 -/
